@@ -20,6 +20,7 @@ import (
 	"encoding/json"
 	"flag"
 	"fmt"
+	"github.com/thushan/olla/verifharness/hx"
 	"hash/fnv"
 	"os"
 	"path/filepath"
@@ -422,6 +423,7 @@ func IsReplay() bool { return os.Getenv("VERIF_REPLAY") != "" }
 func Main(m *testing.M, r *Rec) {
 	code := m.Run()
 	r.Finish()
+	hx.ReleasePorts()
 	// The exit status of the go test binary only signals infrastructure problems to the
 	// driver: violations are carried in the result file. A failing rapid property makes
 	// m.Run return 1, which is fine (the driver looks at the file first).
